@@ -6,9 +6,10 @@
    A log file is a list of records (a record = one RESP-encoded command, as bytes); byte positions
    are sums of record lengths.  MD5 and the command semantics are Section variables.
 
-   [mode]: [Repaired] is the working tree with proposed_fixes/C06-follow-start-over.diff applied
-   (a resync from position 0 recreates the file AND clears dataset, hooks and aofsz; "fully intact"
-   requires the matching part to be the whole file);
+   [mode]: [Repaired] is the working tree: commit "follow-start-over" (= [Fixed1]: a resync from
+   position 0 recreates the file AND clears dataset, hooks and aofsz; "fully intact" requires the
+   matching part to be the whole file) plus proposed_fixes/C06-check-whole-prefix.diff (before any
+   part of the own log is kept, ONE more checksum compares all of it up to the resume position);
    [Pinned] is the code as found (small log: nothing is touched; first block differs: only the
    file is recreated; a matching part ending on a record boundary is "fully intact"). *)
 From Coq Require Import List ZArith Bool.
@@ -44,7 +45,7 @@ Fixpoint ztake_rev (l : bytes) (n : Z) (acc : bytes) : bytes :=
   end.
 Definition ztake (l : bytes) (n : Z) : bytes := rev' (ztake_rev l n []).
 
-Inductive mode := Pinned | Repaired.
+Inductive mode := Pinned | Fixed1 | Repaired.
 
 Section Follow.
   Variable digest : Type.
@@ -60,16 +61,18 @@ Section Follow.
     else Some (ztake (zskip b pos) size).
 
   (* matchChecksums: EOF on either side is "no match", not an error *)
-  Definition matchb (fb : bytes) (faofsz : Z) (lb : bytes) (laofsz : Z) (pos : Z) : bool :=
-    match block fb faofsz pos csz, block lb laofsz pos csz with
+  Definition matchbs (fb : bytes) (faofsz : Z) (lb : bytes) (laofsz : Z) (pos size : Z) : bool :=
+    match block fb faofsz pos size, block lb laofsz pos size with
     | Some a, Some b => digest_eqb (md5 a) (md5 b)
     | _, _ => false
     end.
+  Definition matchb (fb : bytes) (faofsz : Z) (lb : bytes) (laofsz : Z) (pos : Z) : bool :=
+    matchbs fb faofsz lb laofsz pos csz.
 
   (* the min/max/limit loop of followCheckSome after the first block matched; Go's int64 "/" is
      Z.quot; the probes are logged for the correspondence *)
-  Fixpoint search_loop (fuel : nat) (m : Z -> bool) (min max limit : Z) (acc : list (Z * bool))
-    : option (Z * list (Z * bool)) :=
+  Fixpoint search_loop (fuel : nat) (m : Z -> bool) (min max limit : Z) (acc : list (Z * Z * bool))
+    : option (Z * list (Z * Z * bool)) :=
     match fuel with
     | O => None
     | S k =>
@@ -79,7 +82,7 @@ Section Follow.
           let min' := if ok then max + csz else min in
           let limit' := if ok then limit else max in
           let max' := Z.quot (limit' - min') 2 - Z.quot csz 2 + min' in
-          search_loop k m min' max' limit' ((max, ok) :: acc)
+          search_loop k m min' max' limit' ((max, csz, ok) :: acc)
     end.
 
   Definition search_fuel (aofsz : Z) : nat := S (S (Z.to_nat (Z.quot aofsz csz))).
@@ -105,24 +108,35 @@ Section Follow.
   | CSError                     (* followCheckSome returns an error; follow() retries after 1 s *)
   | CSFuel.
 
-  Definition check_some (md : mode) (f : file) (faofsz : Z) (l : file) : cs_result * list (Z * bool) :=
+  Definition check_some (md : mode) (f : file) (faofsz : Z) (l : file) : cs_result * list (Z * Z * bool) :=
     if faofsz <? csz then (CSStartOverSmall, [])
     else
       let fb := fbytes f in
       let lb := fbytes l in
       let m := matchb fb faofsz lb (flen l) in
-      if negb (m 0) then (CSStartOver, [(0, false)])
+      if negb (m 0) then (CSStartOver, [(0, csz, false)])
       else
-        match search_loop (search_fuel faofsz) m csz (faofsz - csz) faofsz [(0, true)] with
+        match search_loop (search_fuel faofsz) m csz (faofsz - csz) faofsz [(0, csz, true)] with
         | None => (CSFuel, [])
         | Some (pos, probes) =>
             match last_value_end f 0 O pos with
             | None => (CSError, probes)
             | Some (p, keep) =>
-                (* "aof fully intact": Pinned tests pos == fullpos only (a matching part that merely ENDS on a
-                   record boundary is taken for the whole file); Repaired also requires pos == aofsz *)
-                if (p =? pos) && (match md with Repaired => pos =? faofsz | Pinned => true end)
-                then (CSIntact pos, probes) else (CSTruncate p keep, probes)
+                (* Repaired: matchChecksums(conn, 0, p) over everything that would be kept; a mismatch
+                   (or EOF on the leader) starts over *)
+                let whole := match md with
+                             | Repaired => Some (matchbs fb faofsz lb (flen l) 0 p)
+                             | _ => None
+                             end in
+                let probes' := match whole with Some w => probes ++ [(0, p, w)] | None => probes end in
+                match whole with
+                | Some false => (CSStartOver, probes')
+                | _ =>
+                    (* "aof fully intact": Pinned tests pos == fullpos only (a matching part that merely ENDS
+                       on a record boundary is taken for the whole file); later modes also require pos == aofsz *)
+                    if (p =? pos) && (match md with Pinned => true | _ => pos =? faofsz end)
+                    then (CSIntact pos, probes') else (CSTruncate p keep, probes')
+                end
             end
         end.
 
@@ -173,13 +187,13 @@ Section Follow.
       match res with
       | CSStartOverSmall =>
           match md with
-          | Repaired => Some ([], st0, 0, 0)
           | Pinned => Some (f_file f, f_mem f, f_aofsz f, 0)
+          | _ => Some ([], st0, 0, 0)
           end
       | CSStartOver =>
           match md with
-          | Repaired => Some ([], st0, 0, 0)
           | Pinned => Some ([], f_mem f, f_aofsz f, 0)
+          | _ => Some ([], st0, 0, 0)
           end
       | CSIntact pos => Some (f_file f, f_mem f, f_aofsz f, pos)
       | CSTruncate pos keep => let fl := firstn keep (f_file f) in Some (fl, replay fl, pos, pos)
